@@ -1050,8 +1050,15 @@ class OnionRun(object):
     def emit_noise(self):
         """events the wait must ignore: CREATED for our own service, client-side fetch events of the foreign one"""
         self.noise_left -= 1
-        k = self.ch.draw(4, 'noise')
-        if k == 3:
+        k = self.ch.draw(5, 'noise')
+        if k == 4:
+            # a FAILED event that carries OUR address but is no upload verdict: a client of this Tor failed to fetch the
+            # service's descriptor from a directory we never uploaded to
+            if self.own_svc is not None:
+                if self.tor.emit('HS_DESC', 'FAILED %s NO_AUTH %s %s REASON=NOT_FOUND' % (self.own_svc.sid, SECOND_DIRS[1], 'q' * 32)):
+                    self.sim.probe('failed-fetch-event-with-own-address')
+                self.sim.log('hs', 'own', 'FAILED-FETCH')
+        elif k == 3:
             # a failed descriptor *fetch* by descriptor id: HSAddress is the literal UNKNOWN; the directory may be one of ours
             dirs = self.own_plan.dirs() if self.own_plan is not None else []
             d = dirs[self.ch.draw(len(dirs), 'noisedir')] if dirs else HSDIRS[0]
